@@ -13,7 +13,7 @@ const { SimFs } = require('./simfs')
 const smap = require('./smap')
 
 // two pairs share a base name in different directories
-const FILES = ['/sim/app/a.js', '/sim/app/lib/b.js', '/sim/other/a.js', '/sim/c.js', '/sim/app/lib/deep/b.js', '/sim/other/e.js', '/sim/app/a\u00f1adir.js', '/sim/app/gen\\util.js', '/sim/app/(shop)/cart.js', '/sim/Program Files (x86)/svc/index.js', '/sim/app/[id]/page:1.js', '/rootfile.js', '/sim/app/models/User.js', '/sim/app/models/user.js', '/sim/app/a$$b/y.js', "/sim/app/a$&b/x$'.js"]
+const FILES = ['/sim/app/a.js', '/sim/app/lib/b.js', '/sim/other/a.js', '/sim/c.js', '/sim/app/lib/deep/b.js', '/sim/other/e.js', '/sim/app/a\u00f1adir.js', '/sim/app/gen\\util.js', '/sim/app/(shop)/cart.js', '/sim/Program Files (x86)/svc/index.js', '/sim/app/[id]/page:1.js', '/rootfile.js', 'file:///sim/esm/mod.mjs', 'file://host/share/x.js', 'file:///sim/esm/a%2Fb.mjs', '/sim/app/models/User.js', '/sim/app/models/user.js', '/sim/app/a$$b/y.js', "/sim/app/a$&b/x$'.js"]
 
 function cfgOf (chain, comments) {
   return {
@@ -51,10 +51,11 @@ function plan (seed, run, tier) {
       const omap = anyChain && rng.chance(2, 3) ? rng.pick(['inline', 'external']) : null
       versions.push(genVersion(rng, fi, vi, kind, { file, omap, allowMsgAt, lookalikeLine: rng.chance(1, 5), bulk: run % 16 === 9 && fi === 0 && vi === 0, firstLine: rng.chance(1, 4), staleInline: rng.chance(1, 4) }))
     }
-    files.push({ path: file, versions })
+    // files named by a URL are only ever loaded as they are (an ES module the rewriter never saw)
+    files.push({ path: file, versions, rawOnly: file.startsWith('file:') })
   }
   // twins: a second file with the same base name carries byte-identical versions (a dependency installed twice)
-  if (files.length >= 2 && rng.chance(1, 4)) {
+  if (files.length >= 2 && rng.chance(1, 4) && !files[0].rawOnly) {
     const a = files[0]
     const twinPath = path.join(path.dirname(a.path), 'node_modules/copy', path.basename(a.path))
     const twin = { path: twinPath, versions: JSON.parse(JSON.stringify(a.versions)), twinOf: 0 }
@@ -91,7 +92,9 @@ function plan (seed, run, tier) {
   for (let i = 0; i < nOps; i++) {
     const f = rng.below(nFiles)
     const k = rng.weighted([8, 3, 12, 2, lookups.length ? 4 : 0, lookups.length ? 2 : 0, 1, lookups.length ? 2 : 0, 1])
-    if (k === 0) {
+    if ((k === 0 || k === 8) && files[f].rawOnly) {
+      ops.push({ op: 'LoadRaw', f, v: rng.below(files[f].versions.length) })
+    } else if (k === 0) {
       const v = rng.below(files[f].versions.length)
       ops.push({ op: 'Rewrite', rw: rng.below(cfgs.length), f, v })
       if (rng.chance(3, 4)) ops.push({ op: 'Load', f })
@@ -108,7 +111,10 @@ function plan (seed, run, tier) {
   }
   // the rewriter's logger may be on for the whole run (process-wide level on the Rust side)
   const logLevel = rng.pick(['off', 'off', 'off', 'debug', 'trace'])
-  return { cfgs, files, lookups, ops, logLevel, lateRewriter, loggerKinds, tag: allowMsgAt ? 'msg-at-allowed' : '' }
+  // two instances of the package in one process (a module reload, a duplicate copy): the second wraps the
+  // first one's prepareStackTrace wrapper; files with an odd index are rewritten through the second instance
+  const twoInstances = rng.chance(1, 6)
+  return { cfgs, files, lookups, ops, logLevel, lateRewriter, loggerKinds, twoInstances, tag: allowMsgAt ? 'msg-at-allowed' : '' }
 }
 
 function fsFor (plan, file, code) {
@@ -153,12 +159,16 @@ async function execute (plan, table) {
   const simfs = new SimFs()
   const adapter = makeAdapter(table, { fsFor: (file, code) => fsFor(plan, file, code), logLevel: plan.logLevel && plan.logLevel !== 'off' ? plan.logLevel : null })
   const { pkg } = loadPackage(adapter, simfs.module)
+  // a second, independent instance of the package (own caches, own marker symbol)
+  const pkgB = plan.twoInstances ? loadPackage(adapter, simfs.module).pkg : null
+  const wrapPST = (value) => pkgB ? pkgB.getPrepareStackTrace(pkg.getPrepareStackTrace(value)) : pkg.getPrepareStackTrace(value)
+  if (pkgB) st('probe:two-package-instances')
   const origPST = Object.getOwnPropertyDescriptor(Error, 'prepareStackTrace')
   const origLimit = Error.stackTraceLimit
   Error.stackTraceLimit = 30
   // handler state through the accessor pattern of integration-test/setup.js
   let userHandler
-  let actual = pkg.getPrepareStackTrace(userHandler)
+  let actual = wrapPST(userHandler)
   let lastRaw = null
   let handlerThrew = null
   const capture = (cs) => {
@@ -174,7 +184,7 @@ async function execute (plan, table) {
         try { return a(err, cs) } catch (e) { handlerThrew = e; return 'HANDLER-THREW ' + (e && e.message) }
       }
     },
-    set (value) { actual = pkg.getPrepareStackTrace(value); userHandler = value }
+    set (value) { actual = wrapPST(value); userHandler = value }
   })
   const GETTERS = ['getThis', 'getTypeName', 'getFunction', 'getFunctionName', 'getMethodName', 'getFileName', 'getScriptNameOrSourceURL', 'getLineNumber', 'getColumnNumber', 'getEvalOrigin', 'isToplevel', 'isEval', 'isNative', 'isConstructor', 'toString']
   const mkUser = (tag) => function userPST (err, callSites) {
@@ -204,6 +214,7 @@ async function execute (plan, table) {
   }
   const rewriters = plan.cfgs.map((c, i) => (plan.lateRewriter && i > 0) ? null : new pkg.Rewriter(withLogger(c, i)))
   const nonCache = new pkg.NonCacheRewriter(plan.cfgs[0])
+  let rewriterB = null
   const L = {} // file -> {id, v, status, content, rw}
   const everModified = {} // file -> true once a modified rewrite was cached
   const loaded = {} // file -> {id|null, v, exports, rewritten}
@@ -305,6 +316,10 @@ async function execute (plan, table) {
         const line = outLines[firstAt + i] || ''
         got = { text: line }
       }
+      // two instances, no user handler: the outer instance hands its wrapped call sites to the inner instance's
+      // wrapper, which formats V8's string from raw lines - files of the outer instance stay untranslated on
+      // the unchanged tree (not pursued, DESIGN section 10): no positional expectation there
+      if (pkgB && isString && fo && L[fo.path] && L[fo.path].inst === 'B') { st('probe:two-instances-string-flavour-skipped'); return }
       if (!exp || !got) return
       const kk = (k) => key || (msgAt && isString ? 'string-path:message-line-starts-with-at' : k)
       if (got.text !== undefined) {
@@ -341,8 +356,10 @@ async function execute (plan, table) {
         if (!f || !ver) { seq++; continue }
         const cache = op.op === 'Rewrite'
         if (cache && plan.lateRewriter && plan.cfgs[op.rw] && !rewriters[op.rw]) { rewriters[op.rw] = new pkg.Rewriter(withLogger(plan.cfgs[op.rw], op.rw)); st('probe:rewriter-constructed-after-files-were-rewritten', rewriteId > 0 ? 1 : 0) }
-        const rw = cache ? rewriters[op.rw] || rewriters[0] : nonCache
-        const rwIdx = cache ? (rewriters[op.rw] ? op.rw : 0) : 0
+        const viaB = cache && pkgB && op.f % 2 === 1
+        if (viaB && !rewriterB) rewriterB = new pkgB.Rewriter(plan.cfgs[0])
+        const rw = viaB ? rewriterB : cache ? rewriters[op.rw] || rewriters[0] : nonCache
+        const rwIdx = viaB ? 0 : cache ? (rewriters[op.rw] ? op.rw : 0) : 0
         let resp = null; let status = 'failed'
         try {
           resp = rw.rewrite(ver.text, f.path)
@@ -358,7 +375,7 @@ async function execute (plan, table) {
           // a failing rewrite throws before the cache is touched: nothing was rewritten, the module loaded
           // before keeps running, and the latest SUCCESSFUL rewrite stays the one lookups must use
           if (status === 'failed' && prev && prev.status !== 'failed') st('probe:failed-rewrite-after-a-successful-one')
-          else L[f.path] = { id, v: op.v, status, content: resp && resp.content, rw: rwIdx }
+          else L[f.path] = { id, v: op.v, status, content: resp && resp.content, rw: rwIdx, inst: viaB ? 'B' : 'A' }
           if (status === 'modified') everModified[f.path] = true
           if (prev && prev.rw !== rwIdx) st('probe:rewrite-by-second-rewriter-instance')
           if (prev) st('probe:file-rewritten-again')
@@ -392,6 +409,10 @@ async function execute (plan, table) {
         // the original text of a version, loaded without going through any rewriter
         const f = plan.files[op.f]; const ver = f && f.versions[op.v]
         if (!f || !ver || ver.kind === 'syntaxerr') { seq++; continue }
+        // the file is on the (simulated) disk as well, with whatever map reference it carries
+        simfs.set(f.path, ver.text)
+        if (ver.omap && ver.omap.mapPath) simfs.set(ver.omap.mapPath, ver.omap.json)
+        st('probe:never-rewritten-file-with-a-map-on-disk', ver.omap ? 1 : 0)
         const mod = { exports: {} }
         try {
           const fn = vm.compileFunction(ver.text, ['exports', 'require', 'module', '__filename', '__dirname'], { filename: f.path })
@@ -402,7 +423,7 @@ async function execute (plan, table) {
         log.push(`#${seq} LoadRaw f=${op.f} v=${op.v}`)
         st('op:LoadRaw')
       } else if (op.op === 'SetHandler') {
-        if (op.kind === 'none' || op.kind === 'undefined') { Error.prepareStackTrace = undefined; fragileInstalled = false } else if (op.kind === 'user') { Error.prepareStackTrace = mkUser('u' + seq); fragileInstalled = false } else if (op.kind === 'fragile') { Error.prepareStackTrace = mkFragile('f' + seq); fragileInstalled = true } else Error.prepareStackTrace = actual // 'same': an already wrapped handler is handed back
+        if (op.kind === 'none' || op.kind === 'undefined') { Error.prepareStackTrace = undefined; fragileInstalled = false } else if (op.kind === 'user') { Error.prepareStackTrace = mkUser('u' + seq); fragileInstalled = false } else if (op.kind === 'fragile') { Error.prepareStackTrace = mkFragile('f' + seq); fragileInstalled = true } else if (!pkgB) Error.prepareStackTrace = actual // 'same': an already wrapped handler is handed back (with two instances each one only knows its own marker and would wrap the other's wrapper again: not pursued)
         hist.push(['SetHandler', 0, op.kind])
         log.push(`#${seq} SetHandler ${op.kind}`)
         st('op:SetHandler')
@@ -437,7 +458,7 @@ async function execute (plan, table) {
           }
           if (typeof cb !== 'function') cb = function plainCallback () { return new Error('cb') }
         }
-        if (op.via === 'string') { Error.prepareStackTrace = undefined; fragileInstalled = false } else if (op.via === 'user' || op.via === 'user-late') { Error.prepareStackTrace = mkUser('t' + seq); fragileInstalled = false } else if (op.via === 'rewrapped') { Error.prepareStackTrace = mkUser('t' + seq); const a = actual; Error.prepareStackTrace = a; fragileInstalled = false }
+        if (op.via === 'string') { Error.prepareStackTrace = undefined; fragileInstalled = false } else if (op.via === 'user' || op.via === 'user-late') { Error.prepareStackTrace = mkUser('t' + seq); fragileInstalled = false } else if (op.via === 'rewrapped') { Error.prepareStackTrace = mkUser('t' + seq); if (!pkgB) { const a = actual; Error.prepareStackTrace = a }; fragileInstalled = false }
         // via 'keep': whatever handler is installed stays (the same wrapper function keeps formatting)
         let err
         try { err = fn('arg', cb) } catch (e) { err = e }
